@@ -9,6 +9,7 @@ import (
 	"os"
 	"sort"
 	"strconv"
+	"strings"
 	"sync"
 	"sync/atomic"
 	"time"
@@ -22,6 +23,7 @@ import (
 	syncer "github.com/tikv/pd/server/region_syncer"
 	"google.golang.org/grpc"
 	"pdverif/vkit"
+	"pdverif/vkit/faultkv"
 	"pgregory.net/rapid"
 )
 
@@ -51,6 +53,15 @@ type Change struct {
 	Body Reg    `json:"b"`
 }
 
+// Fault makes one write of the follower's storage fail (cleanly: nothing is written): the Nth
+// region save the follower attempts in the given phase (initial = full synchronisation or first
+// catch-up, post, reconnect = catch-up after the reconnection, post2). Only for a follower that
+// keeps regions in its default storage (there the store is a kv.Base and can be wrapped).
+type Fault struct {
+	Phase string `json:"phase"`
+	Nth   int    `json:"nth"`
+}
+
 // SCase is one synchronisation scenario.
 type SCase struct {
 	Regions   []Reg  `json:"regions"`     // the leader's regions before anything is synchronised (contiguous ranges)
@@ -63,6 +74,7 @@ type SCase struct {
 	Reconnect     bool     `json:"reconnect"`         // follower stops syncing, Offline changes happen, follower starts syncing again
 	Offline       []Change `json:"offline,omitempty"` //
 	Post2         []Change `json:"post2,omitempty"`   // changes after the reconnection
+	Faults        []Fault  `json:"faults,omitempty"`  // failing region saves on the follower
 }
 
 var sizeTable = []int{0, 1, 1, 2, 2, 99, 99, 100, 100, 100, 101, 101, 101, 199, 199, 200, 200, 201, 201, 250, 250, 250, 1000}
@@ -123,7 +135,7 @@ func genSync(t *rapid.T) SCase {
 	default:
 		c.HistIdx = rapid.SampledFrom([]uint64{1, 7, 100, 101, 250, 5000, 123456, 1 << 40}).Draw(t, "hist")
 	}
-	c.RegionStorage = rapid.IntRange(0, 3).Draw(t, "regionStorage") != 0
+	c.RegionStorage = rapid.IntRange(0, 4).Draw(t, "regionStorage") >= 2
 	c.Pre = genChanges(t, "npre", []int{0, 0, 0, 0, 1, 2, 5, 130})
 	c.Post = genChanges(t, "npost", []int{0, 1, 1, 2, 3, 5, 8, 120})
 	if rapid.IntRange(0, 4).Draw(t, "reconnect") == 0 {
@@ -134,6 +146,19 @@ func genSync(t *rapid.T) SCase {
 		}
 		c.Offline = genChanges(t, "noffline", []int{0, 2, 2, 3, 5, 110})
 		c.Post2 = genChanges(t, "npost2", []int{0, 1, 3})
+	}
+	if !c.RegionStorage && rapid.IntRange(0, 3).Draw(t, "faulty") != 0 {
+		phases := []string{"initial", "initial", "post", "post"}
+		if c.Reconnect {
+			phases = append(phases, "reconnect", "reconnect", "post2")
+		}
+		nf := rapid.IntRange(1, 4).Draw(t, "nfaults")
+		for i := 0; i < nf; i++ {
+			c.Faults = append(c.Faults, Fault{
+				Phase: rapid.SampledFrom(phases).Draw(t, "faultPhase"),
+				Nth:   rapid.SampledFrom([]int{1, 1, 1, 2, 2, 3, 5, 50, 100, 101, 102, 150}).Draw(t, "faultNth"),
+			})
+		}
 	}
 	return c
 }
@@ -274,9 +299,49 @@ type fixture struct {
 	delivered   int // regions in messages sent on streams the follower was listening to
 	starts      int64
 	started     bool
+	// follower storage faults (follower on its default storage only)
+	faulty         bool            // region saves of the follower go through the fault-injecting kv
+	saveAttempts   int             // region saves attempted by the follower
+	failAt         map[int]bool    // ordinals of the attempts that fail
+	failed         []int           // ordinals of the attempts that did fail
+	lastSaveFailed map[uint64]bool // by region id: the most recent save of that region failed
 }
 
-func newSrv(ctx context.Context, dir, name string, fx *fixture) (*fakeSrv, error) {
+const regionKeyPrefix = "raft/r/"
+
+// gate sees every operation on the follower's default storage before it is executed.
+func (fx *fixture) gate(kind, key string) error {
+	if kind != "save" || !strings.HasPrefix(key, regionKeyPrefix) {
+		return nil
+	}
+	id, _ := strconv.ParseUint(key[len(regionKeyPrefix):], 10, 64)
+	fx.mu.Lock()
+	defer fx.mu.Unlock()
+	fx.saveAttempts++
+	if fx.failAt[fx.saveAttempts] {
+		fx.failed = append(fx.failed, fx.saveAttempts)
+		fx.lastSaveFailed[id] = true
+		return faultkv.ErrInjected
+	}
+	delete(fx.lastSaveFailed, id)
+	return nil
+}
+
+// arm makes the Nth region save from now on fail, for every fault of the phase.
+func (fx *fixture) arm(faults []Fault, phase string) {
+	if !fx.faulty {
+		return
+	}
+	fx.mu.Lock()
+	defer fx.mu.Unlock()
+	for _, f := range faults {
+		if f.Phase == phase && f.Nth > 0 {
+			fx.failAt[fx.saveAttempts+f.Nth] = true
+		}
+	}
+}
+
+func newSrv(ctx context.Context, dir, name string, fx *fixture, base kv.Base) (*fakeSrv, error) {
 	rs, err := core.NewRegionStorage(ctx, dir+"/"+name, nil)
 	if err != nil {
 		return nil, err
@@ -284,13 +349,14 @@ func newSrv(ctx context.Context, dir, name string, fx *fixture) (*fakeSrv, error
 	fx.storages = append(fx.storages, rs)
 	m := &pdpb.Member{Name: name, MemberId: uint64(len(name)), ClientUrls: []string{"http://" + name + ".invalid:2379"}}
 	return &fakeSrv{ctx: ctx, name: name, member: m,
-		storage: core.NewStorage(kv.NewMemoryKV(), core.WithRegionStorage(rs)),
+		storage: core.NewStorage(base, core.WithRegionStorage(rs)),
 		bc:      core.NewBasicCluster()}, nil
 }
 
 func newFixture(histIdx uint64, followerRegionStorage bool) (*fixture, error) {
 	slots <- struct{}{}
-	fx := &fixture{notifier: make(chan *core.RegionInfo, 10000), quit: make(chan struct{})}
+	fx := &fixture{notifier: make(chan *core.RegionInfo, 10000), quit: make(chan struct{}),
+		failAt: map[int]bool{}, lastSaveFailed: map[uint64]bool{}, faulty: !followerRegionStorage}
 	dir, err := os.MkdirTemp("", "c16-")
 	if err != nil {
 		<-slots
@@ -303,10 +369,12 @@ func newFixture(histIdx uint64, followerRegionStorage bool) (*fixture, error) {
 		fx.close()
 		return nil, err
 	}
-	if fx.leaderSrv, err = newSrv(ctx, dir, "leader", fx); err != nil {
+	if fx.leaderSrv, err = newSrv(ctx, dir, "leader", fx, kv.NewMemoryKV()); err != nil {
 		return fail(err)
 	}
-	if fx.followerSrv, err = newSrv(ctx, dir, "follower", fx); err != nil {
+	fkv := faultkv.New(kv.NewMemoryKV())
+	fkv.SetGate(fx.gate)
+	if fx.followerSrv, err = newSrv(ctx, dir, "follower", fx, fkv); err != nil {
 		return fail(err)
 	}
 	fx.followerSrv.leader, fx.leaderSrv.leader = fx.leaderSrv.member, fx.leaderSrv.member
@@ -412,14 +480,31 @@ func (fx *fixture) waitFollower(t *tap) bool {
 	return waitFor(func() bool {
 		// re-read every time: a keep-alive message (every 10 s) may be sent in between
 		fx.mu.Lock()
-		last, delivered := t.last, fx.delivered
+		last, delivered, attempts := t.last, fx.delivered, fx.saveAttempts
+		failsInLast := 0
+		if last != nil {
+			// the follower applies regions in order, one save attempt each: the last message is
+			// the attempts (delivered-len, delivered]
+			for _, a := range fx.failed {
+				if a > delivered-len(last.ids) && a <= delivered {
+					failsInLast++
+				}
+			}
+		}
 		fx.mu.Unlock()
 		if last == nil {
 			return true
 		}
-		want := last.start + uint64(len(last.ids))
-		applied := atomic.LoadInt64(&fx.followerSrv.bcCalls) - atomic.LoadInt64(&fx.starts)
-		return applied >= int64(delivered) && fx.follower.VerifNextIndex() == want
+		// a region is recorded in the follower's change log only if its save succeeded
+		want := last.start + uint64(len(last.ids)-failsInLast)
+		if fx.faulty {
+			if attempts < delivered {
+				return false
+			}
+		} else if atomic.LoadInt64(&fx.followerSrv.bcCalls)-atomic.LoadInt64(&fx.starts) < int64(delivered) {
+			return false
+		}
+		return fx.follower.VerifNextIndex() == want
 	})
 }
 
@@ -615,6 +700,8 @@ type syncResult struct {
 	withLeader   int // regions sent whose leader is known to the leader PD
 	excluded     map[string]int
 	dropped      int // regions sent and later merged away on the leader (not compared)
+	saveFaults   int // region saves of the follower that were made to fail
+	staleStored  int // regions compared whose latest save on the follower failed
 }
 
 func (r *syncResult) firstDiff(field string) string {
@@ -682,6 +769,7 @@ func execSync(c SCase, excludeKnown bool) (res syncResult) {
 		fx.mu.Lock()
 		before := t.post
 		fx.mu.Unlock()
+		fx.arm(c.Faults, name)
 		n := report(chs)
 		if n == 0 {
 			return true
@@ -707,6 +795,7 @@ func execSync(c SCase, excludeKnown bool) (res syncResult) {
 		res.inconclusive = "pre: the leader did not record the reported regions in time"
 		return
 	}
+	fx.arm(c.Faults, "initial")
 	fx.startFollower()
 	t := fx.waitBound(0)
 	if t == nil {
@@ -754,6 +843,7 @@ func execSync(c SCase, excludeKnown bool) (res syncResult) {
 			waitFor(func() bool { fx.mu.Lock(); defer fx.mu.Unlock(); return old.sending == 0 })
 			time.Sleep(5 * time.Millisecond)
 		}
+		fx.arm(c.Faults, "reconnect")
 		fx.startFollower()
 		if t = fx.waitBound(1); t == nil {
 			res.inconclusive = "reconnect: the sync stream was not established in time"
@@ -840,7 +930,29 @@ func execSync(c SCase, excludeKnown bool) (res syncResult) {
 		if gf != wf {
 			res.diffs = append(res.diffs, diff{id, "flow", fmt.Sprintf("follower written/read bytes,keys %v, leader %v (region last sent in %s)", gf, wf, m.describe())})
 		}
+		// The follower's storage: every region applied is saved; a failed save leaves the storage as it
+		// was (and the region out of the change log), nothing more is promised for it. So the storage
+		// must hold the leader's meta for every region whose most recent save did not fail.
+		if fx.faulty {
+			fx.mu.Lock()
+			lastFailed := fx.lastSaveFailed[id]
+			fx.mu.Unlock()
+			if lastFailed {
+				res.staleStored++
+				continue
+			}
+			stored := &metapb.Region{}
+			ok, err := fx.followerSrv.storage.LoadRegion(id, stored)
+			if err != nil || !ok {
+				res.diffs = append(res.diffs, diff{id, "storage", fmt.Sprintf("the follower's storage does not hold the region although its last save succeeded (ok=%v err=%v)", ok, err)})
+			} else if stored.String() != want.GetMeta().String() {
+				res.diffs = append(res.diffs, diff{id, "storage", fmt.Sprintf("the follower's storage holds %s, leader %s", stored.String(), want.GetMeta().String())})
+			}
+		}
 	}
+	fx.mu.Lock()
+	res.saveFaults = len(fx.failed)
+	fx.mu.Unlock()
 	return
 }
 
@@ -880,6 +992,9 @@ func runSync(c SCase) (vkit.Info, error) {
 	info.ClassIf(res.sent == 0, "nothing-sent")
 	info.ClassIf(res.dropped > 0, "merged-away")
 	info.ClassIf(!c.RegionStorage, "follower-default-storage")
+	info.ClassIf(res.saveFaults > 0, "follower-save-fault")
+	info.ClassIf(res.saveFaults > 1, "follower-save-faults>1")
+	info.ClassIf(res.staleStored > 0, "follower-storage-behind")
 	known := 0
 	for _, r := range c.Regions {
 		if r.Leader >= 0 {
@@ -908,7 +1023,7 @@ func runSync(c SCase) (vkit.Info, error) {
 	h := fnv.New64a()
 	fmt.Fprintf(h, "%+v", c)
 	info.Sample = map[string]interface{}{"regions": n, "hist": c.HistIdx, "hist_plus_n": c.HistPlusN, "pre": len(c.Pre), "post": len(c.Post),
-		"reconnect": c.Reconnect, "offline": len(c.Offline), "post2": len(c.Post2), "region_storage": c.RegionStorage,
+		"reconnect": c.Reconnect, "offline": len(c.Offline), "post2": len(c.Post2), "region_storage": c.RegionStorage, "save_faults": res.saveFaults,
 		"full_sync_batches": res.fullBatches, "regions_sent": res.sent, "with_leader": res.withLeader, "case_fnv64": fmt.Sprintf("%016x", h.Sum64())}
 	return info, nil
 }
